@@ -75,6 +75,42 @@ def analyse(vals_enc):
     return best[1] if best else None
 
 
+def isolated(vals_enc, posed):
+    """A second reading of the same data: the values accepted contiguously around 0 give the width of the field; a value beyond
+    twice that range which is accepted all the same, and encodes like a value inside it, was wrapped into the field.
+    -> (outlier, inside value, width) or None"""
+    acc = set(vals_enc)
+    if 0 not in acc or len(acc) < 6:
+        return None
+    pos = sorted(v for v in posed if v > 0)
+    neg = sorted((v for v in posed if v < 0), reverse=True)
+    up = 0
+    for v in pos:
+        if v not in acc:
+            break
+        up = v
+    down = 0
+    for v in neg:
+        if v not in acc:
+            break
+        down = v
+    if up < 7 or up >= (1 << 31) - 1:
+        return None                      # no clear contiguous block (scaled or PC-relative field), or everything is accepted
+    w = max(up.bit_length(), (-down - 1).bit_length() + 1 if down else 0)
+    lim = (1 << (w + 1)) - 1             # generous: the unsigned spelling of a signed field fits below this
+    inside = {}
+    for v, e in vals_enc.items():
+        if -(1 << w) <= v <= lim:
+            inside.setdefault(e, v)
+    best = None
+    for v, e in sorted(vals_enc.items()):
+        if (v > lim or v < -(1 << w)) and e in inside:
+            k = (abs(v), v)
+            if best is None or k < best[0]:
+                best = (k, (v, inside[e], w))
+    return best[1] if best else None
+
+
 def job(j):
     try:
         cpu, ci, addr, quick, lines = j
@@ -108,6 +144,12 @@ def job(j):
                 a, b, w = c
                 viol.append((lines[li], si, "%d~%d" % (a, b), "`%s` and `%s` are both accepted and both encode as %s (accepted values span a %d-bit field)" % (
                     d[a][1], d[b][1], d[a][0].hex(), w)))
+            elif slots(lines[li])[si][0] == "num":
+                iso = isolated({v: b for v, (b, t) in d.items()}, V)
+                if iso:
+                    a, b, w = iso
+                    viol.append((lines[li], si, "wrap:%d~%d" % (a, b), "`%s` is accepted although the values accepted around 0 end at %d bits, and it encodes "
+                                 "like `%s` (%s): wrapped into the field" % (d[a][1], w, d[b][1], d[a][0].hex())))
         return (cpu, addr), {"texts": len(texts), "accepted": acc, "slots": len(per)}, viol
     except Exception as e:
         return (j[0], j[2]), {"harness": "%s: %s" % (type(e).__name__, e)}, []
